@@ -166,7 +166,12 @@ class Emitter:
             fs = [f for f in lw.all_funcs() if (f.cname == r or f.qual == r or re.fullmatch(r, f.cname))]
             if not fs:
                 raise LowerError('root %s matches no function; known: see names table' % r)
-            work += fs
+            for f in fs:
+                if not f.has_body() and f.cname != r and f.qual != r:
+                    lw.warnings.append('root pattern %s: %s is declared but never defined/instantiated; skipped' % (r, f.cname))
+                    self.done.setdefault(f.cname, [])
+                    continue
+                work.append(f)
         seen = set()
         while work or lw.lambda_fns:
             if lw.lambda_fns:
@@ -181,6 +186,10 @@ class Emitter:
             f = work.pop()
             if f.cname in self.done:
                 continue
+            if f.cls is not None and f.cls.is_lambda:
+                # lowered when the enclosing function reaches the lambda expression (captures are known only there)
+                self.pending_closures = getattr(self, 'pending_closures', set()) | {f.cname}
+                continue
             if any(re.fullmatch(p, f.cname) for p in lw.cfg.get('stub_functions', [])):
                 # replaced by a hand-written spec model of the same name (listed in the evidence)
                 self.done[f.cname] = []
@@ -188,6 +197,9 @@ class Emitter:
                 self.protos[f.cname] = '%s %s;' % (crt, sig)
                 continue
             if not f.has_body():
+                if f.node.get('explicitlyDeleted'):
+                    self.done[f.cname] = []
+                    continue
                 if f.pure or f.virtual:
                     self.done[f.cname] = []
                     crt, sig, rt, _ = self.signature(f)
@@ -208,6 +220,11 @@ class Emitter:
                     work.append(g)
 
     # ---------------------------------------------------------------- records / enums / globals
+    def check_closures(self):
+        missing = [c for c in getattr(self, 'pending_closures', set()) if not self.done.get(c)]
+        if missing:
+            raise LowerError('closure bodies called but never created by a lowered function: %s' % missing)
+
     def emit_enums(self):
         out = []
         for (qual, node) in self.lw.enums.values():
@@ -401,7 +418,9 @@ def lower_component(cfg, contracts):
     lw = Lowerer(objs, cfg)
     em = Emitter(lw, contracts)
     index_nodes(lw, objs)
+    lw.preregister_lambdas()
     em.lower_roots(cfg['roots'])
+    em.check_closures()
     for cname in contracts:
         if cname not in em.done or em.done[cname] is None:
             raise LowerError('contract given for %s, which is not among the lowered functions' % cname)
